@@ -37,6 +37,7 @@ def main():
         run.proof_broken.append('scratch build of /repo failed: ' + str(e)[-800:])
         return run.finish(dict(evaluations=0), [], [])
     run.check_proofs(deps=['theories/Model/Driver.vo'])
+    NCORPUS = run_corpus(run, PID, src)          # minimised past failures first
     rc, o, e = sh([os.path.join(VERIF, 'ocaml/build.sh')], timeout=900)
     if rc != 0:
         run.corr_broken.append('extracted model does not build: ' + (o + e)[-300:])
